@@ -137,6 +137,9 @@ SchedAllocs == IF Step /\ E.op = "schedule" THEN {m \in Msgs(l) : m.t = "alloc"}
 ReplRels == IF Step /\ E.op = "schedule" THEN {m \in Msgs(l) : m.t = "release" /\ m.term = "PLACEHOLDER_REPLACED"} ELSE {}
 RealAvail(s, n) == RSub(RSub(s.nodes[n].cap, RSumSet(KeysOn(s, n), LAMBDA k : ResOfKey(s, k))), s.nodes[n].occ)
 
+StripLog(ap) == [f \in DOMAIN ap \ {"newlog"} |-> ap[f]]
+AppsNoLog(s) == [a \in AppsOf(s) |-> StripLog(s.apps[a])]
+
 (* ====================================================================== C01 *)
 C01_NodeLedger == NodeLedger(St(l))
 C01_AvailNonNeg == NodeAvailOK(St(l), fN)
@@ -276,12 +279,22 @@ C11_Step == \A m \in SchedAllocs : (m.app \in AppsOf(Pre) /\ Pre.apps[m.app].sta
          (qu.maxApps > 0 /\ m.app \notin ToSet(qu.allocating)) => qu.running + Len(qu.allocating) + 1 <= qu.maxApps
 
 (* ====================================================================== C13 (no panic; "bad" operations: see Bad section) *)
+\* malformed requests ("bad" operations, harness/drive/bad.go): an invalid item is answered with the matching rejection and
+\* leaves every ledger exactly as it was
+IsBad == Step /\ E.op = "bad" /\ E.skipped = "" /\ E.panic = ""
+SameBooks(pre, post) ==
+      /\ pre.nodes = post.nodes /\ pre.queues = post.queues /\ AppsNoLog(pre) = AppsNoLog(post)
+      /\ pre.users = post.users /\ pre.groups = post.groups /\ pre.counters = post.counters /\ pre.done = post.done
+C13_BadUnchanged == (IsBad /\ E.expect = "unchanged") => SameBooks(Pre, Post)
+C13_BadRejected == IsBad =>
+      /\ (E.rej = "app" => \E m \in Msgs(l) : m.t = "appRejected" /\ m.app = E.app)
+      /\ (E.rej = "alloc" => \E m \in Msgs(l) : m.t = "allocRejected" /\ m.key = E.key)
+      /\ (E.rej = "node" => \E m \in Msgs(l) : m.t = "nodeRejected" /\ m.node = E.node)
+      /\ (E.expect = "unchanged" => ~\E m \in Msgs(l) : m.t \in {"alloc", "appAccepted", "nodeAccepted", "release"})
 C13_NoPanic == E.panic = ""
 C13_NoHang == ~E.hang
 
 (* ====================================================================== C16 reload *)
-StripLog(ap) == [f \in DOMAIN ap \ {"newlog"} |-> ap[f]]
-AppsNoLog(s) == [a \in AppsOf(s) |-> StripLog(s.apps[a])]
 IsReload == Step /\ E.op = "reload"
 ConfQueue(c, q) == LET S == {i \in 1..Len(c.queues) : c.queues[i].path = q} IN c.queues[CHOOSE i \in S : TRUE]
 ConfPaths(c) == {c.queues[i].path : i \in 1..Len(c.queues)} \cup {"root"}
@@ -445,7 +458,13 @@ KF_TrackerAppGhost == Step /\ \E a \in AppsOf(Post) :
 \* the shim changes the resources of a real ask in place while that ask is the real half of an in-flight swap
 KF_UpdateLinkedReal == Step /\ E.op = "updateAsk" /\ E.app \in AppsOf(Pre) /\ E.key \in DOMAIN Pre.apps[E.app].asks
                         /\ ~Pre.apps[E.app].asks[E.key].ph /\ Pre.apps[E.app].asks[E.key].rel # ""
+\* malformed request class: in-place update of an allocation the core has already released on its own
+\* (the stale request is still flagged allocated although the allocation is gone and no swap is in flight)
+KF_UpdateReleasedAlloc == Step /\ E.op \in {"bad", "updateAsk"} /\ "app" \in DOMAIN E /\ "key" \in DOMAIN E
+      /\ E.app \in AppsOf(Pre) /\ E.key \in DOMAIN Pre.apps[E.app].asks
+      /\ Pre.apps[E.app].asks[E.key].allocated /\ Pre.apps[E.app].asks[E.key].rel = "" /\ E.key \notin DOMAIN Pre.apps[E.app].allocs
 KFAll == /\ KFHit("KF-C01-REQNODE-UNSCHED", KF_ReqNodeUnsched)
+         /\ KFHit("KF-C13-UPDATE-RELEASED-ALLOC", KF_UpdateReleasedAlloc)
          /\ KFHit("KF-C03-UPDATE-LINKED-REAL", KF_UpdateLinkedReal)
          /\ KFHit("KF-C05-TRACKER-APP-GHOST", KF_TrackerAppGhost)
          /\ KFHit("KF-C04-RELEASE-LINKED-REAL", KF_ReleaseLinkedReal)
@@ -470,6 +489,6 @@ All == /\ KFAll
        /\ Chk("C10_Transitions", C10_Transitions) /\ Chk("C10_MsgStates", C10_MsgStates) /\ Chk("C10_CompletedClean", C10_CompletedClean) /\ Chk("C10_Idle", C10_Idle)
        /\ Chk("C10_LiveHaveQueue", C10_LiveHaveQueue) /\ Chk("C10_StateTimer", C10_StateTimer) /\ Chk("C10_NoAskAfterTerm", C10_NoAskAfterTerm)
        /\ Chk("C11_Counts", C11_Counts) /\ Chk("C11_Step", C11_Step)
-       /\ Chk("C13_NoPanic", C13_NoPanic) /\ Chk("C13_NoHang", C13_NoHang)
+       /\ Chk("C13_NoPanic", C13_NoPanic) /\ Chk("C13_BadUnchanged", C13_BadUnchanged) /\ Chk("C13_BadRejected", C13_BadRejected) /\ Chk("C13_NoHang", C13_NoHang)
        /\ Chk("C16_Rejected", C16_Rejected) /\ Chk("C16_Preserve", C16_Preserve) /\ Chk("C16_Applied", C16_Applied) /\ Chk("C16_DrainingNoNewApps", C16_DrainingNoNewApps) /\ Chk("C16_Removal", C16_Removal)
 =============================================================================
